@@ -174,6 +174,48 @@ def case_entry_points(ctx, s: Subject, ragged=False):
             "a": pd.Series(wa, dtype=pd.ArrowDtype(wa.type)), "b": pd.Series(wb, dtype=pd.ArrowDtype(wb.type))})).array)))
         base = pd.Series(NestedExtensionArray(pa.StructArray.from_arrays([wa], names=["a"])))
         judge2("entry.shared_buffer.with_list_field", call_real(lambda: colres(base.nest.with_list_field("b", wb).array)))
+    # 5c. list columns where one cell is an ABSENT list (null / None) against a non-empty list in the same row:
+    #     no table can have a field with no list next to a field with records -> refused; absent against empty
+    #     and absent in every column are rectangular (no records)
+    if len(ty) >= 2 and n >= 1:
+        t0, t1 = ty[0][1], ty[1][1]
+        j = rng.randrange(n)
+        kind = rng.choice(["absent_vs_nonempty", "absent_vs_empty", "absent_everywhere"])
+        la = [[gen.rand_cell(rng, t0) for _ in range(rng.randint(1, 3))] for _ in range(n)]
+        lb = [[gen.rand_cell(rng, t1) for _ in range(len(x))] for x in la]
+        la[j] = None
+        if kind == "absent_vs_empty":
+            lb[j] = []
+        elif kind == "absent_everywhere":
+            lb[j] = None
+        how = rng.choice(["arrow", "object"])
+
+        def cols():
+            if how == "arrow":
+                a = pa.array([None if x is None else gen.flat_array(x, t0).to_pylist() for x in la], type=pa.list_(TYPES[t0]))
+                b_ = pa.array([None if x is None else gen.flat_array(x, t1).to_pylist() for x in lb], type=pa.list_(TYPES[t1]))
+                return pd.DataFrame({"a": pd.Series(a, dtype=pd.ArrowDtype(a.type)), "b": pd.Series(b_, dtype=pd.ArrowDtype(b_.type))})
+            return pd.DataFrame({"a": pd.Series([None if x is None else gen.flat_array(x, t0).to_pylist() for x in la], dtype=object),
+                                 "b": pd.Series([None if x is None else gen.flat_array(x, t1).to_pylist() for x in lb], dtype=object)})
+        for opn, fn in (("pack_lists", lambda: pack_lists(cols())),
+                        ("from_lists", lambda: NestedFrame.from_lists(NestedFrame(cols()))["nested"]),
+                        ("nest_lists", lambda: NestedFrame(cols()).nest_lists("nested", ["a", "b"])["nested"])):
+            def run(fn=fn):
+                ser = fn()
+                # accepted: then every row must be a rectangular table and the views must be readable
+                lens = [int(x) for x in ser.nest.list_lengths]
+                flat = ser.nest.to_flat()
+                return {"row_lens": [None if r is None else sorted({len(c) for _, c in r}) for r in export.rows_view(ser.array)],
+                        "flat_len": len(flat), "sum_lens": sum(lens)}
+            real = call_real(run)
+            if kind == "absent_vs_nonempty":
+                ok = "err" in real
+            else:
+                ok = "err" in real or (all(r is None or len(r) <= 1 for r in real["ok"]["row_lens"])
+                                       and real["ok"]["flat_len"] == real["ok"]["sum_lens"])
+            ctx.case(f"entry.absent_list.{opn}", {"a": la, "b": lb, "kind": kind, "how": how}, real, None,
+                     {"err": "ValueError"} if kind == "absent_vs_nonempty" else None,
+                     features=("absent_list", kind, how, opn), spec_ok=ok, nontrivial=True)
     # 6. take with a ragged fill value
     if is_ragged:
         bad = next(r for r, r0 in zip(rows, s.content["rows"]) if r != r0)
